@@ -16,20 +16,12 @@
 #include <string.h>
 #include <stdlib.h>
 
-#if defined(_WIN32) || defined(__WINDOWS__)
-#	include <malloc.h>
-#	ifdef _MSC_VER
-#		define alloca _alloca
-#	endif
-#elif defined(HAVE_ALLOCA_H)
-#	include <alloca.h>
-#endif
-
 static int write_block_sizes(sqfs_meta_writer_t *ir,
 			     const sqfs_inode_generic_t *n)
 {
 	sqfs_u32 *sizes;
 	size_t i;
+	int ret;
 
 	if (n->payload_bytes_used < sizeof(sizes[0]))
 		return 0;
@@ -37,12 +29,17 @@ static int write_block_sizes(sqfs_meta_writer_t *ir,
 	if ((n->payload_bytes_used % sizeof(sizes[0])) != 0)
 		return SQFS_ERROR_CORRUPTED;
 
-	sizes = alloca(n->payload_bytes_used);
+	/* the list of a large file does not fit on the stack */
+	sizes = malloc(n->payload_bytes_used);
+	if (sizes == NULL)
+		return SQFS_ERROR_ALLOC;
 
 	for (i = 0; i < (n->payload_bytes_used / sizeof(sizes[0])); ++i)
 		sizes[i] = htole32(n->extra[i]);
 
-	return sqfs_meta_writer_append(ir, sizes, n->payload_bytes_used);
+	ret = sqfs_meta_writer_append(ir, sizes, n->payload_bytes_used);
+	free(sizes);
+	return ret;
 }
 
 static int write_dir_index(sqfs_meta_writer_t *ir, const sqfs_u8 *data,
